@@ -82,6 +82,11 @@ class C18Run(object):
             sim.probe('socksport-default')
             self.default_port = str(ch.pick([9050, 9150, 19050], 'defport'))
             return None
+        if ch.chance(1, 30, 'manyentries'):
+            # a Tor with very many SOCKS listeners: re-listing them takes a command line of several thousand bytes - still
+            # one command
+            sim.probe('socksport-entries-100+')
+            return ['127.0.0.1:%d IsolateDestAddr IsolateSOCKSAuth' % (10000 + i) for i in range(100 + ch.draw(60, 'manyentriesn'))]
         n = 1 if mode == 2 else 2 + ch.draw(3, 'nent')
         sim.probe('socksport-entries-1' if n == 1 else 'socksport-entries-many')
         entries = []
